@@ -269,17 +269,55 @@ func (v *Verifier) replaySafety(o *Obligation, dir string) ReplayResult {
 		if args[0] == "nil" {
 			return ReplayResult{Outcome: "model has a nil receiver"}
 		}
-		call = fmt.Sprintf("%s.%s(%s)", args[0], fn.Name(), strings.Join(args[1:], ", "))
+		recv := args[0]
+		if _, isPtr := fn.Params[0].Type().Underlying().(*types.Pointer); !isPtr {
+			recv = "(" + recv + ")"
+		}
+		call = fmt.Sprintf("%s.%s(%s)", recv, fn.Name(), strings.Join(args[1:], ", "))
 	} else {
 		call = fmt.Sprintf("%s(%s)", fn.Name(), strings.Join(args, ", "))
+	}
+	// functional obligations: evaluate the post-condition on the real result
+	post := ""
+	extra := ""
+	if o.Kind == "ensures" && o.Src != "" {
+		if e, err := parseExprSrc(o.Src); err == nil {
+			g := &goCompiler{v: v, fn: fn, params: map[string]string{}, defs: map[string]bool{}, bound: map[string]bool{}}
+			for i, p := range fn.Params {
+				// bind arguments to named variables so that the post-condition can refer to them
+				name := fmt.Sprintf("arg%d", i)
+				b.lines = append(b.lines, fmt.Sprintf("%s := %s", name, args[i]))
+				b.lines = append(b.lines, "_ = "+name)
+				g.params[p.Name()] = name
+				args[i] = name
+			}
+			nres := fn.Signature.Results().Len()
+			for i := 0; i < nres; i++ {
+				g.results = append(g.results, fmt.Sprintf("r%d", i))
+			}
+			cond := g.expr(e)
+			if g.err == nil && nres > 0 {
+				if fn.Signature.Recv() != nil {
+					call = fmt.Sprintf("%s.%s(%s)", args[0], fn.Name(), strings.Join(args[1:], ", "))
+				} else {
+					call = fmt.Sprintf("%s(%s)", fn.Name(), strings.Join(args, ", "))
+				}
+				call = strings.Join(g.olds, "\n\t") + "\n\t" + strings.Join(g.results, ", ") + " := " + call
+				for _, r := range g.results {
+					call += "\n\t_ = " + r
+				}
+				post = fmt.Sprintf("\n\tif %s {\n\t\tfmt.Println(\"GOVC-REPLAY-POSTOK\")\n\t} else {\n\t\tfmt.Printf(\"GOVC-REPLAY-POSTFAIL: results %%v\\n\", []any{%s})\n\t}", cond, strings.Join(g.results, ", "))
+				extra = replayHelpers + "\n" + strings.Join(g.defSrc, "\n") + "\n"
+			}
+		}
 	}
 	var imps []string
 	for p, n := range b.imports {
 		imps = append(imps, fmt.Sprintf("\t%s %q", n, p))
 	}
 	sort.Strings(imps)
-	src := fmt.Sprintf("package %s\n\nimport (\n%s\n)\n\n// replay of %s\nfunc TestGovcReplay(t *testing.T) {\n\tdefer func() {\n\t\tif r := recover(); r != nil {\n\t\t\tfmt.Printf(\"GOVC-REPLAY-PANIC: %%v\\n\", r)\n\t\t\treturn\n\t\t}\n\t\tfmt.Println(\"GOVC-REPLAY-RETURNED\")\n\t}()\n\t%s\n\t%s\n}\n",
-		fn.Pkg.Pkg.Name(), strings.Join(imps, "\n"), o.Name, strings.Join(b.lines, "\n\t"), call)
+	src := fmt.Sprintf("package %s\n\nimport (\n%s\n)\n%s\n// replay of %s\nfunc TestGovcReplay(t *testing.T) {\n\tdefer func() {\n\t\tif r := recover(); r != nil {\n\t\t\tfmt.Printf(\"GOVC-REPLAY-PANIC: %%v\\n\", r)\n\t\t\treturn\n\t\t}\n\t\tfmt.Println(\"GOVC-REPLAY-RETURNED\")\n\t}()\n\t%s\n\t%s%s\n}\n",
+		fn.Pkg.Pkg.Name(), strings.Join(imps, "\n"), extra, o.Name, strings.Join(b.lines, "\n\t"), call, post)
 	os.MkdirAll(dir, 0o755)
 	base := strings.NewReplacer("/", "_", ":", "_", "*", "p", "(", "", ")", "", " ", "", "[", "_", "]", "", ",", "_", "=", "", "#", "_").Replace(o.Name)
 	testPath := filepath.Join(dir, base+"_replay_test.go")
@@ -295,6 +333,11 @@ func (v *Verifier) replaySafety(o *Obligation, dir string) ReplayResult {
 	out, _ := cmd.CombinedOutput()
 	res := ReplayResult{Attempted: true, TestFile: testPath, Output: firstLines(string(out), 30)}
 	switch {
+	case strings.Contains(string(out), "GOVC-REPLAY-POSTFAIL"):
+		res.Confirmed = true
+		res.Outcome = "post-condition violated on the real code with the model's arguments"
+	case strings.Contains(string(out), "GOVC-REPLAY-POSTOK"):
+		res.Outcome = "model did not reproduce: the post-condition holds on the real code for these arguments"
 	case strings.Contains(string(out), "GOVC-REPLAY-PANIC"):
 		res.Confirmed = true
 		res.Outcome = "panic reproduced on the real code"
